@@ -115,6 +115,17 @@ def run(tier):
                'samples': [{'replayed_history': sample}, {'label_events': lab['events'], 'label_sets': lab['label_sets']}],
                'exhaustive': True, 'model_checks': mcs, 'history_replay': hist,
                'labels': {k: lab[k] for k in ('label_sets', 'parser_runs', 'distinct_fingerprints', 'events')}, 'labels_trace': {'accepted': ok, 'detail': detail, 'tlc': st}}
+        if tier == 'thorough':
+            # AckedDiscoverable is the logs/labels face of AckedReadable in the end-to-end composition (Qryn.tla, extra check X02):
+            # all four signals, every read endpoint, parse errors and per-table insert faults; part of this property's deep tier
+            import props.x02 as x02
+            xr = x02.run('quick')
+            for v in xr['violations']:
+                viols.append(dict(v, property='C04', signature='e2e|' + v['signature']))
+            cov['e2e_x02'] = {k: xr['coverage'].get(k) for k in ('states', 'transitions', 'traces_validated_against_impl')}
+            cov['states'] += xr['coverage'].get('states', 0)
+            cov['transitions'] += xr['coverage'].get('transitions', 0)
+            cov['traces_validated_against_impl'] += xr['coverage'].get('traces_validated_against_impl', 0)
         return {'level': 'model_checking', 'coverage': cov, 'violations': viols,
                 'assumptions': ['hash injectivity is checked on the enumerated universe only (a hash cannot be proved injective)',
                                 'writer and reader run in the same process time zone in the replay (UTC-5, UTC, UTC+3 via TZ)',
